@@ -182,11 +182,13 @@ CLAIMS = {
     "C17": dict(
         technique=K,
         text="Against mock sources/sinks returning ANY Ok(n <= asked), any error, Pending: Iterator/DoubleEnded/ExactSize next/next_back/len pass through "
-             "and advance the position by one per item; Read (read, read_vectored, read_to_string, read_exact), BufRead (fill_buf never counts, consume counts "
+             "and advance the position by one per item, nth counts every item the inner iterator hands out, exhaustion finishes the bar exactly once; futures "
+             "Stream::poll_next likewise; Read (read, read_vectored, read_to_string, read_exact), BufRead (fill_buf never counts, consume counts "
              "exactly), Write (write, write_vectored, flush), Seek (all modes; position := new offset) and the tokio AsyncRead (with a pre-filled ReadBuf), "
              "AsyncWrite, AsyncBufRead, AsyncSeek adaptors return exactly the inner result and move the position by exactly the transferred amount (wrapping u64).",
-        note="3 calls per history, buffers <= 8 bytes; AtomicPosition::allow replaced by 'refuse' (no redraw); the quick iterator harness never exhausts the inner "
-             "iterator (exhaustion -> finish and futures Stream are thorough-tier); rayon adaptors are outside the claim (worker threads: not modelled by Kani).",
+        note="3-4 calls per history, buffers <= 8 bytes; AtomicPosition::allow replaced by 'refuse' (no redraw); in the exhaustion / nth / Stream harnesses "
+             "ProgressBar::is_finished and finish_using_style are recorder stubs (what finishing does to the bar is C04/C07's subject; through the real "
+             "Arc<Mutex<BarState>> these harnesses do not finish within an hour: tier `deep`); rayon adaptors are outside the claim (worker threads: not modelled by Kani).",
         ref="4/C17"),
     "C18": dict(
         technique="MIR panic-site scan with SMT path feasibility (z3 + cvc5) for the unwrap sites; fault injection by " + K,
